@@ -379,63 +379,99 @@ def r_outside_fn(m, rep, R='R1.2c'):
         if n.kind == 'BinaryOperator' and n.op == '=':
             assigns.append((term(n.kids[0], env), term(n.kids[1], env), n))
     loops = [s for s in body.kids if s.kind == 'ForStmt']
-    if len(loops) != 2 or len(vecs) != 2:
+    if len(loops) not in (2, 3) or len(vecs) != 2:
         raise AnalysisError('%s: compute_outside_probabilities: unexpected shape (%d loops, %d vectors)'
                             % (H, len(loops), len(vecs)))
-    # identify from_left / from_right by their recurrences
-    v1, lo1, c1, st1, b1 = _for_bounds(env, loops[0])
+    # the last loop fills the table; the prefix and suffix sums are accumulated in one loop before it, or in one loop each
+    sum_loops = loops[:-1]
+    loops = [sum_loops[0], loops[-1]]
+
+    def loop_range(loop):
+        """-> (var, (kmin_len, kmin_const), (kmax_len, kmax_const)) values the loop variable takes, as a*length + b;
+        ascending `v = c; v < U; v++` or descending `v = H; v > c; v--`; None when not of these forms"""
+        init, cond, inc, lbody = cxx.for_parts(loop)
+        vds = init.find('VarDecl') if init is not None else []
+        if len(vds) != 1:
+            return None
+        var = vds[0].name
+        start = _lin_int(term(env.init_of(vds[0]), env))
+        i_ = strip(inc)
+        if not (i_.kind == 'UnaryOperator' and i_.op in ('++', '--') and strip(i_.kids[0]).ref == var):
+            return None
+        c = term(cond, env)
+        if c[0] != 'bin' or c[1] not in ('<', '<=', '>', '>='):
+            return None
+        op, l_, r_ = c[1], _lin_int(c[2]), _lin_int(c[3])
+        if l_.get(var, 0) == 0 and r_.get(var, 0) == 1:
+            l_, r_ = r_, l_
+            op = {'<': '>', '>': '<', '<=': '>=', '>=': '<='}[op]
+        if l_.get(var, 0) != 1 or r_.get(var, 0) != 0:
+            return None
+        bound = dict(r_)
+        for k_, v_ in l_.items():
+            if k_ != var:
+                bound[k_] = bound.get(k_, 0) - v_
+        lin = lambda d_: (d_.get(length, 0), d_.get('#', 0)) if set(d_) <= {length, '#'} else None
+        st_, bd_ = lin(start), lin(bound)
+        if st_ is None or bd_ is None:
+            return None
+        if i_.op == '++' and op in ('<', '<='):
+            hi = bd_ if op == '<=' else (bd_[0], bd_[1] - 1)
+            return var, st_, hi
+        if i_.op == '--' and op in ('>', '>='):
+            lo_ = bd_ if op == '>=' else (bd_[0], bd_[1] + 1)
+            return var, lo_, st_
+        return None
+
+    def index_range(idx_t, rng):
+        """range of the index expression (+-var + a*length + b) over the loop range"""
+        var, lo_, hi_ = rng
+        li = _lin_int(idx_t)
+        c = li.get(var, 0)
+        if c not in (1, -1) or not set(li) <= {var, length, '#'}:
+            return None
+        off = (li.get(length, 0), li.get('#', 0))
+        if c == 1:
+            return (lo_[0] + off[0], lo_[1] + off[1]), (hi_[0] + off[0], hi_[1] + off[1])
+        return (off[0] - hi_[0], off[1] - hi_[1]), (off[0] - lo_[0], off[1] - lo_[1])
     left = right = None
-    for tgt, val, n in assigns:
-        if n not in list(b1.walk()) or tgt[0] != 'idx' or len(tgt[2]) != 1:
-            continue
-        vec = tgt[1]
-        k = _lin_int(tgt[2][0])
-        # from_left[k+1] = from_left[k] + probs[k]
-        for a in subterms(val):
-            pass
-        lv = flin(val)
-        idx_t = tgt[2][0]
-        want_left = flin(ADD(IDX(vec, SUB(idx_t, LIT(1))), IDX(V(probs), SUB(idx_t, LIT(1)))))
-        want_right = flin(ADD(IDX(vec, ADD(idx_t, LIT(1))), IDX(V(probs), idx_t)))
-        if lv == want_left:
-            left = (vec, idx_t, n)
-        elif lv == want_right:
-            right = (vec, idx_t, n)
+    for sl in sum_loops:
+        rng = loop_range(sl)
+        for tgt, val, n in assigns:
+            if n not in list(sl.walk()) or tgt[0] != 'idx' or len(tgt[2]) != 1:
+                continue
+            vec = tgt[1]
+            lv = flin(val)
+            idx_t = tgt[2][0]
+            want_left = flin(ADD(IDX(vec, SUB(idx_t, LIT(1))), IDX(V(probs), SUB(idx_t, LIT(1)))))
+            want_right = flin(ADD(IDX(vec, ADD(idx_t, LIT(1))), IDX(V(probs), idx_t)))
+            if lv == want_left:
+                left = (vec, idx_t, n, rng, sl)
+            elif lv == want_right:
+                right = (vec, idx_t, n, rng, sl)
     rep.check(left is not None, R, w(loops[0]), 'outside:left-recurrence',
               'from_left[k] = from_left[k-1] + p[k-1] (prefix sums)', 'prefix-sum recurrence not found')
     rep.check(right is not None, R, w(loops[0]), 'outside:right-recurrence',
               'from_right[k] = from_right[k+1] + p[k] (suffix sums)', 'suffix-sum recurrence not found')
     if left is None or right is None:
         return
-    ub = _upper(c1, v1)
-    ok_hdr = lo1 == LIT(0) and st1 and ub is not None
-    # index ranges reached: left index runs over lo..ub-1 shifted
     good = False
-    detail = 'loop (%s=%s; %s)' % (v1, show(lo1), canon(c1))
-    if ok_hdr:
-        # left index = v1 + a ; right index = length - v1 + b (after inlining j)
-        li = _lin_int(left[1])
-        ri = _lin_int(right[1])
-        a = li.get('#', 0)
-        okl = li.get(v1, 0) == 1 and set(li) <= {v1, '#'}
-        okr = ri.get(v1, 0) == -1 and ri.get(length, 0) == 1 and set(ri) <= {v1, length, '#'}
-        n_iter = {k: v for k, v in ub.items()}
-        # iterations i = 0 .. U-1 with U = length + u0
-        u0 = n_iter.get('#', 0)
-        oku = n_iter.get(length, 0) == 1 and set(n_iter) <= {length, '#'}
-        if okl and okr and oku:
-            b = ri.get('#', 0)
-            # left indices covered: a .. a + length + u0 - 1 ; need 1..length-1, allow <= length
-            lmin, lmax_off = a, a + u0 - 1          # max = length + lmax_off
-            # right indices covered: length + b - (length+u0-1) .. length + b = (b-u0+1) .. length+b
-            rmin, rmax_off = b - u0 + 1, b
-            good = (lmin == 1 and -1 <= lmax_off <= 0 and rmax_off == -1 and 0 <= rmin <= 1)
-            detail += ': from_left[%d..length%+d], from_right[%d..length%+d]' % (lmin, lmax_off, rmin, rmax_off)
+    detail = 'loops at lines %s' % sorted({left[4].line, right[4].line})
+    lr = index_range(left[1], left[3]) if left[3] else None
+    rr = index_range(right[1], right[3]) if right[3] else None
+    if lr and rr:
+        # the prefix sums must ascend (each step reads the entry below), the suffix sums descend in index
+        asc_left = _lin_int(left[1]).get(left[3][0], 0) == (1 if strip(cxx.for_parts(left[4])[2]).op == '++' else -1)
+        desc_right = _lin_int(right[1]).get(right[3][0], 0) == (-1 if strip(cxx.for_parts(right[4])[2]).op == '++' else 1)
+        # need from_left[1..length-1] (length allowed) and from_right[1..length-1] (0 allowed)
+        good = (asc_left and desc_right and lr[0] == (0, 1) and lr[1] in ((1, -1), (1, 0)) and rr[1] == (1, -1) and rr[0] in ((0, 0), (0, 1)))
+        fmt = lambda b_: ('length%+d' % b_[1] if b_[1] else 'length') if b_[0] == 1 else str(b_[1])
+        detail += ': from_left[%s..%s], from_right[%s..%s]' % (fmt(lr[0]), fmt(lr[1]), fmt(rr[0]), fmt(rr[1]))
     rep.check(good, R, w(loops[0]), 'outside:sum-range',
               'prefix sums cover from_left[1..length-1] and suffix sums from_right[1..length-1] (%s)' % detail,
               'prefix/suffix sums do not cover exactly the needed indices: %s' % detail)
     # zero bases
-    z = {canon(t): v for t, v, n in assigns if n not in list(loops[0].walk()) and n not in list(loops[1].walk())}
+    z = {canon(t): v for t, v, n in assigns if not any(n in list(l_.walk()) for l_ in sum_loops) and n not in list(loops[1].walk())}
     def zero_filled(vec_t):
         """std::vector<float> v(n) / v(n, 0): value-initialised, every element starts as 0"""
         for d in vecs:
